@@ -214,6 +214,12 @@ func (st *SlimTrie) getGEPath(key string) ([]int32, bool) {
 		panic("incomplete slim does not support scanning. requires InnerPrefixes and LeafPrefixes")
 	}
 
+	// InnerPrefixes is always allocated: without the InnerPrefix option it stores
+	// only prefix lengths(steps) and has no PositionBM.
+	if st.inner.InnerPrefixes.PositionBM == nil {
+		panic("incomplete slim does not support scanning. requires InnerPrefixes and LeafPrefixes")
+	}
+
 	eqID := int32(0)
 	// the smallest child id ever seen that is greater than key.
 	rID := int32(-1)
